@@ -185,6 +185,32 @@ def random_network(rng, quick=True, force=None):
             thr = _r(rng, 5, 40, 2)
             add(j["name"], rng.choice(["pressure", "pressure", "head"]), rng.choice(["le", "lt", "ge", "gt"]),
                 thr + (j["elev"] if False else 0.0), link, rng.choice(["OPEN", "CLOSED"]), prio)
+    # an in-line TCV on a side branch with a SETTING control and a conflicting STATUS control of another priority whose
+    # conditions hold together for long stretches (the simulator adds a companion `status := Active` to the setting control,
+    # with the setting control's priority); likewise a `base_speed` control (value 1.0) on the supply pump
+    if force.get("setting_controls", rng.random() < 0.45):
+        spec["junctions"].append({"name": "JV", "elev": _r(rng, 0, 5, 2), "demand": _r(rng, 0.002, 0.01, 4), "pattern": None})
+        spec["valves"].append({"name": "VJ", "start": "J0", "end": "JV", "diam": 0.2, "type": "TCV", "setting": _r(rng, 5, 50, 1),
+                               "minor_loss": 0.0})
+        tk = rng.choice(spec["tanks"])
+        mid = round((tk["min"] + tk["max"]) / 2, 2)
+        rel = rng.choice(["ge", "le"])
+        p1, p2 = rng.sample([0, 1, 2, 3, 4, 5, 6], 2)
+        pair = [{"name": "c%d" % cid, "src": tk["name"], "attr": "level", "rel": rel, "thr": mid, "link": "VJ", "act": "setting",
+                 "value": _r(rng, 10, 200, 1), "prio": p1},
+                {"name": "c%d" % (cid + 1), "src": tk["name"], "attr": "level", "rel": rel,
+                 "thr": round(mid + rng.choice([-0.3, 0.0, 0.3]), 2), "link": "VJ", "act": "status", "value": rng.choice(["CLOSED", "CLOSED", "OPEN"]),
+                 "prio": p2}]
+        if rng.random() < 0.5:
+            pair.reverse()
+        spec["controls"] += pair
+        cid += 2
+    if spec["pumps"][0]["type"] == "HEAD" and force.get("speed_controls", rng.random() < 0.35):
+        tk = rng.choice(spec["tanks"])
+        spec["controls"].append({"name": "c%d" % cid, "src": tk["name"], "attr": "level", "rel": rng.choice(["ge", "le"]),
+                                 "thr": round((tk["min"] + tk["max"]) / 2, 2), "link": "PU0", "act": "base_speed", "value": 1.0,
+                                 "prio": rng.choice([0, 1, 2, 3, 4, 5, 6])})
+        cid += 1
     # user TIME controls with non-default priorities: a link toggled at successive instants (on the hydraulic grid ->
     # backtrack 0, or inside a step), so that in the step where a tank limit / level threshold is crossed another presolve
     # control of a different priority regularly changes something too
@@ -201,6 +227,29 @@ def random_network(rng, quick=True, force=None):
                 spec["controls"].append({"name": "c%d" % cid, "kind": "time", "time": k * hyd - off, "link": link, "value": val, "prio": prio})
                 cid += 1
     return spec
+
+
+def companion_priority_spec(kind="valve", close_first=False):
+    """seeded/C05-4: R -> J1 -[TCV V1 | pump PU]-> J2 -> tank T; a SETTING (base_speed) control of priority low once the level is
+    above 3 m, an explicit CLOSED control of priority medium once it is above 5 m: the companion `status := Active/Open` of the
+    low-priority control must not override the CLOSED"""
+    s = _base(3600, 12)
+    s["reservoirs"].append({"name": "R", "head": 30.0 if kind == "valve" else 5.0})
+    s["junctions"] += [{"name": "J1", "elev": 0.0, "demand": 0.0, "pattern": None}, {"name": "J2", "elev": 0.0, "demand": 0.0, "pattern": None}]
+    s["tanks"].append({"name": "T", "elev": 0.0, "init": 2.0, "min": 0.0, "max": 20.0, "diam": 30.0, "curve": None})
+    s["pipes"] += [{"name": "P1", "start": "R", "end": "J1", "length": 200.0, "diam": 0.3, "rough": 100.0, "cv": False, "status": "OPEN"},
+                   {"name": "P2", "start": "J2", "end": "T", "length": 200.0, "diam": 0.3, "rough": 100.0, "cv": False, "status": "OPEN"}]
+    if kind == "valve":
+        s["valves"].append({"name": "V1", "start": "J1", "end": "J2", "diam": 0.3, "type": "TCV", "setting": 20.0, "minor_loss": 0.0})
+        soft = {"name": "throttle", "src": "T", "attr": "level", "rel": "ge", "thr": 3.0, "link": "V1", "act": "setting", "value": 50.0, "prio": 1}
+        hard = {"name": "close", "src": "T", "attr": "level", "rel": "ge", "thr": 5.0, "link": "V1", "act": "status", "value": "CLOSED", "prio": 3}
+    else:
+        s["curves"]["HC"] = {"type": "HEAD", "points": [[0.15, 25.0]]}
+        s["pumps"].append({"name": "PU", "start": "J1", "end": "J2", "type": "HEAD", "param": "HC"})
+        soft = {"name": "speed", "src": "T", "attr": "level", "rel": "ge", "thr": 3.0, "link": "PU", "act": "base_speed", "value": 1.0, "prio": 1}
+        hard = {"name": "close", "src": "T", "attr": "level", "rel": "ge", "thr": 5.0, "link": "PU", "act": "status", "value": "CLOSED", "prio": 3}
+    s["controls"] = [hard, soft] if close_first else [soft, hard]
+    return s
 
 
 def cond_controls(spec):
@@ -379,7 +428,10 @@ def build_wn(wntr, spec, report="ALL"):
                      initial_setting=v["setting"])
     for c in spec["controls"]:
         link = wn.get_link(c["link"])
-        act = ControlAction(link, "status", LinkStatus.Open if c["value"] == "OPEN" else LinkStatus.Closed)
+        if c.get("act", "status") == "status":
+            act = ControlAction(link, "status", LinkStatus.Open if c["value"] == "OPEN" else LinkStatus.Closed)
+        else:  # 'setting' (valves) / 'base_speed' (pumps) with a numeric value: the simulator adds a companion status control
+            act = ControlAction(link, c["act"], float(c["value"]))
         if c.get("kind", "cond") == "time":
             from wntr.network.controls import SimTimeCondition
 
@@ -426,7 +478,7 @@ def _fields(wn, names):
     out = []
     for n in names:
         l = wn.get_link(n)
-        out.append((float(int(l._user_status)), float(int(l._internal_status)), _num(l._setting)))
+        out.append((float(int(l._user_status)), float(int(l._internal_status)), _num(l._setting), float(getattr(l, "base_speed", 1.0))))
     return out
 
 
@@ -443,7 +495,7 @@ def _ctl_desc(ctl, names, ids):
     if hasattr(a, "_internal_attr"):
         field = {"_internal_status": "internal"}.get(a._internal_attr)
     else:
-        field = {"_user_status": "user", "_setting": "setting"}.get(a._private_attribute)
+        field = {"_user_status": "user", "_setting": "setting", "base_speed": "speed"}.get(a._private_attribute)
     if field is None or a._target_obj.name not in names:
         return None
     return (ids.setdefault(id(ctl), len(ids)), int(ctl._priority), names.index(a._target_obj.name), field, float(a._value))
@@ -480,6 +532,24 @@ def run_instrumented(spec, report="ALL", wn=None, keep_wn=False):
     orig_post = core.WNTRSimulator._run_postsolve_controls
     orig_save = hyd.save_results
     orig_gatc = core.WNTRSimulator._get_all_tank_controls
+    orig_gpc = core.WNTRSimulator._get_pump_controls
+    orig_gvc = core.WNTRSimulator._get_valve_controls
+    tr.companions = {"P": [], "V": []}
+
+    def _comp(which, orig):
+        def f(self):
+            out = orig(self)
+            user = {id(c._condition): c for _, c in self._wn.controls()}
+            for c in out:
+                a = c._then_actions[0]
+                if hasattr(a, "_internal_attr"):
+                    continue
+                src = user.get(id(c._condition))
+                tr.companions[which].append(dict(link=a._target_obj.name, field={"_user_status": "user"}.get(a._private_attribute, a._private_attribute),
+                                                 value=float(a._value), prio=int(c._priority), shares_condition=src is not None,
+                                                 ctype=c._control_type.name, src_ctype=None if src is None else src._control_type.name))
+            return out
+        return f
 
     def upd(w):
         dt = w.sim_time - w._prev_sim_time
@@ -601,6 +671,8 @@ def run_instrumented(spec, report="ALL", wn=None, keep_wn=False):
     core.WNTRSimulator._run_postsolve_controls = post
     hyd.save_results = save
     core.WNTRSimulator._get_all_tank_controls = gatc
+    core.WNTRSimulator._get_pump_controls = _comp("P", orig_gpc)
+    core.WNTRSimulator._get_valve_controls = _comp("V", orig_gvc)
     try:
         import warnings
 
@@ -613,8 +685,8 @@ def run_instrumented(spec, report="ALL", wn=None, keep_wn=False):
         tr.tracked = []
         for a in sim._change_tracker._actions.keys():
             obj, attr = a.target()
-            if getattr(obj, "name", None) in names and attr in ("status", "setting"):
-                tr.tracked.append((names.index(obj.name), "S" if attr == "status" else "V"))
+            if getattr(obj, "name", None) in names and attr in ("status", "setting", "base_speed"):
+                tr.tracked.append((names.index(obj.name), {"status": "S", "setting": "V", "base_speed": "P"}[attr]))
         tr.tracked = sorted(set(tr.tracked))
     except NotImplementedError as e:
         tr.exception = "NotImplementedError: %s" % e
@@ -628,6 +700,8 @@ def run_instrumented(spec, report="ALL", wn=None, keep_wn=False):
         core.WNTRSimulator._run_postsolve_controls = orig_post
         hyd.save_results = orig_save
         core.WNTRSimulator._get_all_tank_controls = orig_gatc
+        core.WNTRSimulator._get_pump_controls = orig_gpc
+        core.WNTRSimulator._get_valve_controls = orig_gvc
     if keep_wn:
         tr.wn = wn
     return tr
@@ -701,7 +775,7 @@ def tank_line(tid, p):
 
 
 def links_line(kinds, fields):
-    return "links %d " % len(kinds) + " ".join("%s %s %s %s" % (k, F(u), F(i), F(s)) for k, (u, i, s) in zip(kinds, fields))
+    return "links %d " % len(kinds) + " ".join("%s %s %s %s %s" % (k, F(u), F(i), F(s), F(sp)) for k, (u, i, s, sp) in zip(kinds, fields))
 
 
 def parse_rat(s):
@@ -717,8 +791,8 @@ def close(a, exact, rel=1e-9, absol=1e-12):
 def parse_links(s):
     out = []
     for part in s.split(" ; "):
-        u, i, st = part.split(",")
-        out.append((float(parse_rat(u)), float(parse_rat(i)), float(parse_rat(st))))
+        u, i, st, sp = part.split(",")
+        out.append((float(parse_rat(u)), float(parse_rat(i)), float(parse_rat(st)), float(parse_rat(sp))))
     return out
 
 
